@@ -1,6 +1,6 @@
 ------------------------------ MODULE MC_Heap ------------------------------
 EXTENDS ZogHeap
-SitesDef == {"slice-default-validate", "slice-default-parse", "prim-default-parse", "prim-default-validate"}
+SitesDef == {"slice-default-validate", "slice-default-parse", "prim-default-parse", "prim-default-validate", "test-params"}
 CopyAll == [s \in SitesDef |-> TRUE]
 \* the design with one site aliasing instead of copying (a mutant configuration)
 AliasValidate == [s \in SitesDef |-> s # "slice-default-validate"]
